@@ -99,13 +99,26 @@ def _cases(draw):
             a, b = interval()
             events.append({"kind": kind, "tau": a, "tau_end": b, "sensor": draw(st.sampled_from([S1, S2])),
                            "bias": draw(st.sampled_from([0.5, -0.5, 1.0]))})
-    return {"start": iso(t0), "dt": dt, "nsteps": n, "events": events}
+    # actual ids of the two engines ("engine 1/2" everywhere else in a case are logical names); 0 is a valid id
+    eng_ids = draw(st.sampled_from([[1, 2], [1, 2], [0, 2], [3, 0], [0, 7]]))
+    return {"start": iso(t0), "dt": dt, "nsteps": n, "events": events, "eng_ids": eng_ids}
 
 
 # ------------------------------------------------------------------------------------------------
 # scenario construction
 # ------------------------------------------------------------------------------------------------
+_ENG = {"l2a": {1: 1, 2: 2}, "a2l": {1: 1, 2: 2}}
+
+
+def _set_engine_ids(case):
+    a, b = case.get("eng_ids", [1, 2])
+    _ENG["l2a"] = {1: a, 2: b}
+    _ENG["a2l"] = {a: 1, b: 2}
+
+
 def _build_config(case):
+    _set_engine_ids(case)
+    l2a = _ENG["l2a"]
     t0 = parse(case["start"])
     dt, n = case["dt"], case["nsteps"]
     st_t1 = kit.circular_state_over(*SITE_A, t0, R_MEO, heading_deg=40.0)
@@ -123,7 +136,7 @@ def _build_config(case):
     s3 = kit.space_sensor(S3, kit.circular_state_over(*SITE_A, t0, R_MEO - 6000.0, heading_deg=20.0, offset_deg=(1.0, -1.0)),
                           kind="adv_radar")
     s5 = kit.ground_sensor(S5, SITE_B[0] + 1.0, SITE_B[1] + 1.0)
-    engines = [kit.engine(1, [s1], [t1, t2]), kit.engine(2, [s2, s5], [t1, t4])]
+    engines = [kit.engine(l2a[1], [s1], [t1, t2]), kit.engine(l2a[2], [s2, s5], [t1, t4])]
     evs = []
     for ev in case["events"]:
         when = iso_z(t0 + timedelta(seconds=ev["tau"]))
@@ -134,18 +147,18 @@ def _build_config(case):
                         "planned": ev["planned"]})
         elif k == "target_addition":
             evs.append({"scope": "scenario_step", "scope_instance_id": 0, "start_time": when,
-                        "event_type": "target_addition", "tasking_engine_id": ev["engine"], "target_agent": t3})
+                        "event_type": "target_addition", "tasking_engine_id": l2a[ev["engine"]], "target_agent": t3})
         elif k == "sensor_addition":
             evs.append({"scope": "scenario_step", "scope_instance_id": 0, "start_time": when,
-                        "event_type": "sensor_addition", "tasking_engine_id": ev["engine"], "sensor_agent": s3})
+                        "event_type": "sensor_addition", "tasking_engine_id": l2a[ev["engine"]], "sensor_agent": s3})
         elif k == "target_removal":
             evs.append({"scope": "scenario_step", "scope_instance_id": 0, "start_time": when,
-                        "event_type": "agent_removal", "tasking_engine_id": 1, "agent_id": T2, "agent_type": "target"})
+                        "event_type": "agent_removal", "tasking_engine_id": l2a[1], "agent_id": T2, "agent_type": "target"})
         elif k == "sensor_removal":
             evs.append({"scope": "scenario_step", "scope_instance_id": 0, "start_time": when,
-                        "event_type": "agent_removal", "tasking_engine_id": 2, "agent_id": S5, "agent_type": "sensor"})
+                        "event_type": "agent_removal", "tasking_engine_id": l2a[2], "agent_id": S5, "agent_type": "sensor"})
         elif k == "task_priority":
-            evs.append({"scope": "task_reward_generation", "scope_instance_id": ev["engine"], "start_time": when,
+            evs.append({"scope": "task_reward_generation", "scope_instance_id": l2a[ev["engine"]], "start_time": when,
                         "end_time": iso_z(t0 + timedelta(seconds=ev["tau_end"])), "event_type": "task_priority",
                         "target_id": ev["target"], "target_name": f"tgt{ev['target']}", "priority": ev["priority"],
                         "is_dynamic": False})
@@ -172,7 +185,7 @@ def _describe(obj):
     if name == "SensingAgent":
         return ("sensor", obj.simulation_id)
     if hasattr(obj, "unique_id"):
-        return ("engine", obj.unique_id)
+        return ("engine", _ENG["a2l"].get(obj.unique_id, obj.unique_id))
     return (name, -1)
 
 
@@ -229,6 +242,7 @@ def scenario_events(case, rec):
     key = [t0.hour * 3600 + t0.minute * 60 + t0.second, dt, sorted((e["kind"], e["tau"]) for e in evs)]
     if aligned:
         rec.nontrivial(key)
+    rec.label("engine_ids:%s" % (case.get("eng_ids", [1, 2]),))
     for e in evs:
         rec.label("kind:" + e["kind"])
         rec.label("aligned" if e["tau"] % dt == 0 else "inside")
@@ -259,10 +273,10 @@ def scenario_events(case, rec):
         for eng in sc.tasking_engines.values():
             def calc(_eng=eng, _orig=eng.calculateRewards):
                 _orig()
-                captured.setdefault((tap.step, _eng.unique_id), {})["R0"] = (_eng.reward_matrix.copy(), list(_eng.target_list))
+                captured.setdefault((tap.step, _ENG["a2l"][_eng.unique_id]), {})["R0"] = (_eng.reward_matrix.copy(), list(_eng.target_list))
 
             def gen(_eng=eng, _orig=eng.generateTasking):
-                captured.setdefault((tap.step, _eng.unique_id), {})["R1"] = (_eng.reward_matrix.copy(), list(_eng.target_list))
+                captured.setdefault((tap.step, _ENG["a2l"][_eng.unique_id]), {})["R1"] = (_eng.reward_matrix.copy(), list(_eng.target_list))
                 _orig()
 
             eng.calculateRewards = calc
@@ -277,8 +291,8 @@ def scenario_events(case, rec):
             snaps[k] = {
                 "truth": {tid: np.array(a.eci_state, dtype=float) for tid, a in sc.target_agents.items()},
                 "targets": set(sc.target_agents), "estimates": set(sc.estimate_agents), "sensors": set(sc.sensor_agents),
-                "eng_targets": {e.unique_id: list(e.target_list) for e in sc.tasking_engines.values()},
-                "eng_sensors": {e.unique_id: list(e.sensor_list) for e in sc.tasking_engines.values()},
+                "eng_targets": {_ENG["a2l"][e.unique_id]: list(e.target_list) for e in sc.tasking_engines.values()},
+                "eng_sensors": {_ENG["a2l"][e.unique_id]: list(e.sensor_list) for e in sc.tasking_engines.values()},
                 "bias": {sid: [b.id for b in s.sensor_time_bias_event_queue] for sid, s in sc.sensor_agents.items()},
             }
 
